@@ -22,7 +22,7 @@ Technique (numbers: ALLOWED devices of RULES_GUIDE.md, "What counts as static he
   R6  2 (loop progress, csverif.loops), 3 (all rebindings of the position add exactly 1 - polynomial difference; the header
       test `<little-endian unsigned 32-bit decode of the 4 header bytes> ==/!= <position> + 16` with the decode recognised
       through resolved `utils.unpack` partials / `int.from_bytes` and the header bytes followed by reaching definitions;
-      the field reads on the matching edge in evaluation order with constant widths 4, 4, 8 and the decoded size; the
+      every path from the matching edge passes the yield before the next offset (no conditional skip of a match); the field reads on the matching edge in evaluation order with constant widths 4, 4, 8 and the decoded size; the
       record fields bound by NamedTuple field order and followed to those reads), 6 (constants)."""
 
 from __future__ import annotations
@@ -579,6 +579,18 @@ def r6(ctx):
         ctx.undecided("R6", "AGREE", f, "yield ArtifactKitPayload(...)", f"{len(ys)} yields on the matching path / not a record construction")
         return
     yst = fv.stmt_of(ys[0])
+    # every offset whose header satisfies the test is reported: from the matching edge no path comes back to the loop head
+    # (or leaves the function normally) without passing the yield - a skip under a further condition (size, file length,
+    # payload content) drops offsets the property says are reported
+    from csverif.cfg import EXIT as _EXIT
+    yn, wn = cfg.node(yst), cfg.node(w)
+    skip_loop = cfg.reaches(match_edge, wn, avoiding=[yn])
+    skip_exit = cfg.reaches(match_edge, _EXIT, avoiding=[yn, wn])
+    ctx.ob("R6", "EXIT", f, "every matching offset is yielded", not (skip_loop or skip_exit),
+           "from the matching edge of the header test every path reaches the yield before the next offset / the end"
+           if not (skip_loop or skip_exit) else
+           "a path from the matching edge of the header test " + ("returns to the loop head" if skip_loop else "leaves the function")
+           + " without yielding: " + " -> ".join(cfg.witness_path(match_edge, wn if skip_loop else _EXIT, avoiding=[yn] if skip_loop else [yn, wn])[:8]), hst)
     rec = ys[0].value
     if isinstance(rec, ast.Name):
         rd = reaching_defs(ctx, f, rec.id, yst)
